@@ -24,6 +24,8 @@ enum Role {
     Client,
     Server,
     Authed,
+    /// bus-mode client: the peer also answers `Hello`, possibly in the same write as the first messages
+    BusClient,
 }
 
 #[derive(Clone, Debug, Serialize, Deserialize, PartialEq)]
@@ -76,7 +78,7 @@ impl Scenario for C14Scn {
         "C14"
     }
     fn rule(&self) -> &'static str {
-        "plan = role (client/server/pre-authenticated) x 1..6 generated messages (0..2 KiB bodies, 0..3 fds, both endiannesses) x read-split profile (whole, 1-byte, max-n, seeded per-read sizes, enumerated cut points) x delivery latency x handshake leftovers (messages and fds in the same write as the last handshake line) x optional oversize header; non-trivial = at least one message was split across reads or was carried in the handshake leftovers; distinct = distinct (plan, event log) pairs"
+        "plan = role (p2p client / p2p server / pre-authenticated / bus client whose Hello reply shares a write with the first messages) x 1..6 generated messages (0..2 KiB bodies, 0..3 fds, both endiannesses) x read-split profile (whole, 1-byte, max-n, seeded per-read sizes, enumerated cut points) x delivery latency x handshake leftovers (messages and fds in the same write as the last handshake line) x optional oversize header; non-trivial = at least one message was split across reads or was carried in the handshake leftovers; distinct = distinct (plan, event log) pairs"
     }
     fn runs(&self, tier: Tier) -> u64 {
         match tier {
@@ -95,7 +97,7 @@ impl Scenario for C14Scn {
     }
 
     fn generate(&self, rng: &mut Rng, idx: u64, tier: Tier) -> (SchedCfg, Value) {
-        let role = *rng.pick(&[Role::Client, Role::Client, Role::Server, Role::Authed]);
+        let role = *rng.pick(&[Role::Client, Role::Client, Role::Server, Role::Authed, Role::BusClient]);
         let can_fd = rng.chance(3, 4);
         let n = rng.range(1, 6) as usize;
         let mut msgs = vec![];
@@ -209,6 +211,7 @@ impl Scenario for C14Scn {
                 Role::Client => build_client(sock).await,
                 Role::Server => build_server(sock).await,
                 Role::Authed => build_authed(sock).await,
+                Role::BusClient => build_bus_client(sock).await,
             };
             let conn = match conn {
                 Ok(c) => c,
@@ -258,6 +261,20 @@ impl Scenario for C14Scn {
                     raw2.write(&bytes);
                 }
                 Role::Authed => n_tail = 0,
+                Role::BusClient => {
+                    if let Err(e) = serve_sasl(&mut r, p2.can_fd, &[], vec![], TailAt::AfterBegin).await {
+                        ww.log(|| format!("peer: handshake failed: {e}"));
+                        return;
+                    }
+                    // the client pipelines Hello with BEGIN: answer it, the first fd-less messages ride along
+                    let hello = match r.msg().await {
+                        Ok(Some(m)) => m,
+                        _ => return,
+                    };
+                    let mut out = RawMsg::ret(9, hello.serial).sender("org.freedesktop.DBus").destination(":1.100").body(&[Val::str(":1.100")]).encode();
+                    out.extend_from_slice(&tail);
+                    raw2.write(&out);
+                }
             }
             // the rest: every fd-carrying message starts its own write, carrying its fds
             let mut pending: Vec<u8> = vec![];
